@@ -164,6 +164,7 @@ def run(storerun, rng, cfg, tier):
     nlines = tracer.count if tracer is not None else 0
     nopens = r._open_count
     nattrs = r._attr_count
+    nflush = r._flush_count
     ntasks = r._task_count
     nchunks_prod = r._iter_chunks_seen
     r.stat("workloads")
@@ -195,6 +196,8 @@ def run(storerun, rng, cfg, tier):
         placements.append({"kind": "F4", "open": rng.randrange(nopens), "width": rng.choice([2, 3, 5])})
     # every attribute write of the operation fails in turn (a full or failing disk at the very last step)
     placements += [{"kind": "F9", "attr": j} for j in range(nattrs)]
+    # every flush of buffered data fails in turn (the point where EIO / ENOSPC of earlier writes surfaces)
+    placements += [{"kind": "F10", "flush": j} for j in range(nflush)]
     if prod["op"] == "coarsen" and prod.get("nproc", 1) > 1:
         placements += [{"kind": "F6", "task": t, "exc": rng.choice(["MemoryError", "OSError"])}
                        for t in range(ntasks)]
